@@ -642,7 +642,7 @@ func init() {
 			}
 			bound := 2
 			if c.Thorough() {
-				bound = 3
+				bound = 4 // bounds-first: whatever the time cap leaves unfinished is a highest bound, reported per scenario
 			}
 			if v := os.Getenv("VERIF_BOUND"); v != "" {
 				fmt.Sscan(v, &bound)
